@@ -2,6 +2,8 @@
 
 package ws
 
+import "io"
+
 // C09_upgrade_template: Upgrader.Upgrade succeeds exactly for compliant requests and answers
 // with the right 101 / error response.  One element of the request is perturbed per path;
 // the perturbed element carries symbolic bytes.
@@ -255,6 +257,16 @@ func C09_upgrade_template() {
 		return HandshakeHeaderString("X-Before: yes\r\n"), nil
 	}
 	u.Header = HandshakeHeaderString("X-Extra: 1\r\n")
+	switch vChoose("headerform", 3) { // the same caller header in the other forms the option accepts
+	case 1:
+		u.Header = HandshakeHeaderBytes("X-Extra: 1\r\n")
+	case 2:
+		u.Header = HandshakeHeaderFunc(func(w io.Writer) (int64, error) {
+			n1, _ := w.Write([]byte("X-Extra: "))
+			n2, err := w.Write([]byte("1\r\n"))
+			return int64(n1 + n2), err
+		})
+	}
 	if cb == 3 && len(extra) == 0 {
 		extra = append(extra, "X-Unknown: whatever")
 	}
